@@ -1,5 +1,6 @@
 """Properties decided on the DSL value graph: C02 C03 C05 C09 C10 C20 (+ parts of C01 C04 C08)."""
 from .. import alphabet as al, dsl, env, explore, monitors, rx
+from ..common import V
 
 
 def phases_for(tier):
@@ -29,8 +30,11 @@ def phases_for(tier):
     ]
 
 
-def _run(run, mons, extra_phases=()):
+def _run(run, mons, extra_phases=(), shallow=False):
     phases = phases_for(run.tier) + list(extra_phases)
+    if shallow and run.tier == 'quick':
+        # C20 has its own history search; of the graph it keeps the wide phase and the first deep level
+        phases = [(atoms, levels[:1], nested) for atoms, levels, nested in phases]
     hashes, viol, counts, samples, outcomes, names, bounds, per = set(), [], {}, [], set(), [], [], []
     for atoms, levels, nested in phases:
         res = explore.run(dsl.safe_atoms(atoms, run), levels, mons, nested_tail=nested)
@@ -108,8 +112,10 @@ def run_C02(run):
     from .. import common
     cov, assumptions = _run(run, [monitors.C02(1500 if run.tier == 'quick' else 6000)])
     atoms = [e for e, _ in al.tiny_atoms()] + ["'a|b'", "'['", "Capture('c')", "Optional('a')"]
-    cases = [(cls, combo) for cls in FOLD_CLASSES for k in ((3,) if run.tier == 'quick' else (3, 4))
-             for combo in itertools.product(atoms if k == 3 else atoms[:6], repeat=k)]
+    a4 = ["'a'", "Pregex()", "Either('a', 'b')", "'c|'"] if run.tier == 'quick' else atoms[:6]
+    cases = [(cls, combo) for cls in FOLD_CLASSES for combo in itertools.product(atoms, repeat=3)]
+    cases += [(cls, combo) for cls in FOLD_CLASSES for combo in itertools.product(a4, repeat=4)]
+    cases += [(cls, combo) for cls in ('Concat', 'Either', 'Enclose') for combo in itertools.product(a4[:3], repeat=5)]
     n = 0
     for viol, k in common.pmap(_task_fold, common.chunks(cases, 400)):
         run.add(viol)
@@ -117,8 +123,30 @@ def run_C02(run):
     run.count('fold_cases', n)
     cov['transitions'] += n
     cov['traces_validated_against_impl'] += 2 * n
-    cov['rule'] += f' || class forms of arity 3{"" if run.tier == "quick" else "/4"} over {len(atoms)} atoms must equal the left-to-right chain of method calls'
+    cov['rule'] += f' || class forms of arity 3 over {len(atoms)} atoms, arity 4 over {len(a4)} and arity 5 over 3 must equal the left-to-right chain of method calls'
     return cov, assumptions
+
+
+def _task_algebra(exprs):
+    from ..common import V
+    dsl.setup_worker()
+    viol, n = [], 0
+    for e in exprs:
+        n += 1
+        try:
+            r = dsl.build(e)
+            bad = None if rx.compiles(str(r))[0] else 'returned %r which re rejects' % str(r)
+            if bad is None:
+                ex = r.get_pattern()
+                if not ex.isprintable() or rx.equiv(ex, str(r))[0] not in ('tree', 'texts'):
+                    bad = 'exported text %r is not printable / not equivalent to %r' % (ex, str(r))
+        except Exception as ex_:  # noqa: BLE001
+            bad = None if dsl.is_lib_exc(ex_) else 'raised ' + type(ex_).__name__ + ': ' + str(ex_)[:80]
+        if bad:
+            viol.append(V(f'C03|algebra|{e}', f"{e}: {bad}",
+                          f"from mc import rx, dsl\ntry:\n    r = {e}\nexcept Exception as e:\n    assert dsl.is_lib_exc(e), repr(e)\nelse:\n    assert rx.compiles(str(r))[0], str(r)",
+                          order_sensitive=True))
+    return viol, n
 
 
 def run_C03(run):
@@ -131,6 +159,20 @@ def run_C03(run):
     cov['evaluations'] += tot['calls']
     cov['rule'] += ' || API surface: the full product of small per-parameter domains (valid values and every documented kind of invalid one) for ' \
                    f"{tot['callables']} public callables"
+    from . import cls as clsmod
+    from .. import common
+    reg, neg, other, core = clsmod.c07_atoms(run.tier)
+    edge = [c for c in reg if '\\x00' in c or '\\U0010ff' in c or '\\ud7ff' in c] + ["'\\x00'", "'\\U0010ffff'", "'\\x01'"]
+    exprs = [f"({a}) {op} ({b})" for a in reg + neg for b in core + other[:9] + edge for op in '|-'] + [f"~({c})" for c in reg + neg] \
+        + [f"({o}) {op} ({c})" for o in other[:9] for c in core if c.startswith('Any') for op in '|-']
+    nalg = 0
+    for viol, k in common.pmap(_task_algebra, common.chunks(exprs, 600)):
+        run.add(viol)
+        nalg += k
+    run.count('class_algebra_calls', nalg)
+    cov['transitions'] += nalg
+    cov['traces_validated_against_impl'] += nalg
+    cov['rule'] += f' || class algebra: {nalg} expressions A|B, A-B, ~A over all C07 atoms (incl. U+0000 / U+10FFFF end points) must raise a library exception or return a compilable class'
     cov['samples'] = cov['samples'][:8] + [{'api_call': "Capture('a', 'a\\n')", 'expected': 'InvalidCapturingGroupNameException'},
                                             {'api_call': "AtLeastAtMost('a', 2, 1)", 'expected': 'InvalidArgumentValueException'}]
     return cov, assumptions + ['argument domains are written from the docstrings :param:/:raises: sections; Python-level arity errors are out of scope']
@@ -164,6 +206,30 @@ def run_C05(run):
             run.add([V(f'C05|way-of-empty|{e}', f"{e} is not the canonical empty pattern",
                        f"o = {e}\nassert str(o) == '' and o._get_type() == pre._Type.Empty")])
     run.count('ways_of_being_empty', len(WAYS_OF_EMPTY))
+    # n-ary class forms: empty operands in any (later) position are dropped
+    import itertools
+    n = 0
+    for cls in ('Concat', 'Either', 'Enclose'):
+        for k in (2, 3, 4, 5, 6):
+            for combo in itertools.product(["'a'", 'Pregex()', "'b|'", "Concat()"], repeat=k):
+                if cls in ('Either', 'Enclose') and combo[0] in ('Pregex()', 'Concat()'):
+                    continue      # empty first alternative / enclosing nothing: left open
+                kept = [c for c in combo if c not in ('Pregex()', 'Concat()')]
+                if len(kept) == len(combo):
+                    continue
+                full, reduced = f"{cls}({', '.join(combo)})", f"{cls}({', '.join(kept)})"
+                n += 1
+                try:
+                    a, b = str(dsl.build(full)), str(dsl.build(reduced))
+                    ok = a == b or ((a == '') == (b == '') and rx.equiv(a, b)[0] in ('tree', 'texts'))
+                except Exception as e:  # noqa: BLE001
+                    a, b, ok = repr(e), '', False
+                if not ok:
+                    run.add([V(f'C05|nary|{full}', f"{full} -> {a!r} but with the empty operands removed {reduced} -> {b!r}",
+                               f"from mc import rx\na = str({full})\nb = str({reduced})\n"
+                               f"assert a == b or ((a == '') == (b == '') and rx.equiv(a, b)[0] in ('tree', 'texts')), (a, b)")])
+    run.count('nary_empty_cases', n)
+    cov['transitions'] += n
     return cov, assumptions
 
 
@@ -213,9 +279,55 @@ def _literal_sweep(run, pid, cov):
     cov['rule'] += f' || every literal of the alphabet ({len(lits)} strings: all of length <= 2 over 45 symbols + curated) under the repeating quantifier / lookbehind forms'
 
 
+def _task_assertions(lits):
+    """direct assertion instances over every literal operand must be refused by repeating quantifiers, with CannotBeRepeatedException"""
+    from ..common import V
+    dsl.setup_worker()
+    viol, n = [], 0
+    kinds = ["MatchAtStart({0})", "MatchAtEnd({0})", "MatchAtLineStart({0})", "MatchAtLineEnd({0})", "FollowedBy({0}, 'k')",
+             "PrecededBy({0}, 'k')", "EnclosedBy({0}, 'k')", "FollowedBy('k', {0})", "PrecededBy('k', {0})", "EnclosedBy('k', {0})"]
+    quants = ["OneOrMore({0})", "({0}).exactly(2)", "({0}) * 3", "AtLeastAtMost({0}, 1, 2)", "Indefinite({0}, False)"]
+    accept = ["Optional({0})", "({0}).exactly(1)", "({0}) * 0", "AtMost({0}, 1)"]
+    for s in lits:
+        for k in kinds:
+            inner = k.format(repr(s))
+            for q in quants:
+                src = q.format(inner)
+                n += 1
+                try:
+                    r = dsl.build(src)
+                    bad = 'accepted: ' + str(r)
+                except Exception as e:  # noqa: BLE001
+                    bad = None if type(e).__name__ == 'CannotBeRepeatedException' else 'raised ' + type(e).__name__
+                if bad:
+                    viol.append(V(f'C09|assertion|{src}', f"{src}: {bad} (a direct assertion instance must be refused with CannotBeRepeatedException)",
+                                  f"try:\n    r = {src}\nexcept CannotBeRepeatedException:\n    pass\nelse:\n    raise AssertionError('accepted: ' + str(r))"))
+            for q in accept[: 2 if len(s) > 1 else 4]:
+                src = q.format(inner)
+                n += 1
+                try:
+                    dsl.build(src)
+                except Exception as e:  # noqa: BLE001
+                    viol.append(V(f'C09|assertion|{src}', f"{src}: raised {type(e).__name__} (a quantifier that cannot repeat is accepted for every operand)",
+                                  f"r = {src}"))
+    return viol, n
+
+
 def run_C09(run):
+    from .. import common
     cov, assumptions = _run(run, [monitors.C09()])
     _literal_sweep(run, 'C09', cov)
+    lits = [s for s in al.all_literals() if s]
+    if run.tier == 'quick':
+        lits = [s for s in lits if len(s) == 1 or s in al.CURATED] + [s for i, s in enumerate(lits) if len(s) == 2 and i % 4 == 0]
+    n = 0
+    for viol, k in common.pmap(_task_assertions, common.chunks(lits, 40)):
+        run.add(viol)
+        n += k
+    run.count('assertion_sweep_cases', n)
+    cov['transitions'] += n
+    cov['traces_validated_against_impl'] += n
+    cov['rule'] += f' || direct assertion instances (10 forms) over {len(lits)} literal operands x 5 repeating and 2-4 non-repeating quantifier forms'
     return cov, assumptions
 
 
